@@ -117,6 +117,13 @@ def handle (st : St) (line : String) : St × String :=
           let m := showKVS st.db.kv
           let s := showKVS (Spec.render st.spec)
           pure (st, "dump " ++ m ++ "\tinv=" ++ (if m == s then "1" else "0:" ++ s))
+        | "logical" => do
+          -- the specification state as the public API shows it: per collection the index set,
+          -- the document count and the documents by id
+          let showColl := fun (p : Bytes × Spec.Coll) =>
+            toHex p.1 ++ "|" ++ ",".intercalate ((p.2.indexes.map toHex).mergeSort (· ≤ ·)) ++ "|" ++
+              toString p.2.docs.length ++ "|" ++ ";".intercalate (p.2.docs.map (fun e => showDoc e.2))
+          pure (st, "logical " ++ "#".intercalate (st.spec.map showColl))
         | "cmp" => do
           let a ← parseValue (← j.getObjVal? "a")
           let b ← parseValue (← j.getObjVal? "b")
